@@ -225,6 +225,11 @@ ApplyWhat(w, vs, env, k0) ==
                                     cur |-> env, range |-> w.range, acc |-> <<>>,
                                     src |-> IF w.range THEN VNil ELSE vs[1],
                                     rcur |-> IF w.range THEN vs[1].z ELSE Zero, hi |-> IF w.range THEN vs[2].z ELSE Zero])]
+    \* op(args)$AD: an operation of a domain with a private representation (P.adts); per/rep do not change the value
+    [] w.w = "acall" ->
+         LET A == P.adts[w.adt + 1] i == FindByName(A.ops, w.op)
+         IN IF i = 0 THEN [st EXCEPT !.status = "stuck"]
+            ELSE CallClosure(s0, k0, [ps |-> A.ops[i].ps, body |-> A.ops[i].body, env |-> st.g], vs, env)
     [] w.w = "tuple" -> [st EXCEPT !.c = Val([t |-> "tup", vs |-> vs]), !.k = k0]     \* several values at once: (e1, .., en)
     [] w.w = "throw" -> [st EXCEPT !.c = [k |-> "thr", exn |-> w.exn, vs |-> vs], !.k = k0]
     [] w.w = "for" ->
@@ -347,6 +352,8 @@ RetCollCond == IsVal /\ HasF /\ F.f = "coll" /\ F.phase = "cond" /\
      ELSE [st EXCEPT !.c = Val(VUnit), !.k = Push(Pop(st.k), [F EXCEPT !.phase = "next"])])
 RetCollBody == IsVal /\ HasF /\ F.f = "coll" /\ F.phase = "body" /\
   Go([st EXCEPT !.c = Val(VUnit), !.k = Push(Pop(st.k), [F EXCEPT !.phase = "next", !.acc = Append(F.acc, st.c.v)])])
+EvACall == IsEv /\ X.e = "acall" /\ GoAny(StartArgs([w |-> "acall", adt |-> X.adt, op |-> X.op], X.args))
+EvPerRep == IsEv /\ X.e \in {"per", "rep"} /\ Go([st EXCEPT !.c = Ev(X.v)])
 EvTuple == IsEv /\ X.e = "tuple" /\ GoAny(StartArgs([w |-> "tuple"], X.args))
 EvMAsg == IsEv /\ X.e = "masg" /\
   Go([st EXCEPT !.c = Ev(X.v), !.k = Push(st.k, [f |-> "masg", xs |-> X.xs, env |-> st.e])])
@@ -552,7 +559,7 @@ Init == /\ pid \in 1..Len(Progs)
 Step == \/ EvLit \/ EvBool \/ EvStr \/ EvUnit \/ EvVar \/ EvMac \/ EvPrim \/ EvCall \/ EvCallV \/ EvPrint
         \/ EvList \/ EvCons \/ EvListOp \/ EvNewArr \/ EvARef \/ EvASet \/ EvALen \/ EvMkRec \/ EvRGet \/ EvRSet
         \/ EvMkUn \/ EvUIs \/ EvUGet \/ EvDCall \/ EvThrow \/ EvIf \/ EvAnd \/ EvOr \/ EvSeq \/ EvAsg \/ EvLet \/ EvLam \/ EvGen
-        \/ EvWhile \/ EvFor \/ EvForIn \/ EvBreak \/ EvIter \/ EvRet \/ EvYield \/ EvTry \/ EvError \/ EvAssert \/ RetAssert \/ EvTuple \/ EvMAsg \/ RetMAsg \/ EvCollect \/ RetCollNext \/ RetCollCond \/ RetCollBody
+        \/ EvWhile \/ EvFor \/ EvForIn \/ EvBreak \/ EvIter \/ EvRet \/ EvYield \/ EvTry \/ EvError \/ EvAssert \/ RetAssert \/ EvTuple \/ EvMAsg \/ RetMAsg \/ EvCollect \/ RetCollNext \/ RetCollCond \/ RetCollBody \/ EvACall \/ EvPerRep
         \/ RetArgsNext \/ RetArgsApply \/ RetIf \/ RetAnd \/ RetOr \/ RetSeq \/ RetExitTaken \/ RetExitNot
         \/ RetAsg \/ RetLet \/ RetWhileCond \/ RetWhileBody \/ RetForStep \/ RetForInList \/ RetForInGen
         \/ RetGenEnd \/ RetYieldK \/ YieldUnwind \/ YieldDeliver \/ RetCall \/ RetRetK \/ RetUnwind \/ RetArrive
